@@ -229,6 +229,11 @@ func pad(in *Interp, fr *frame, s value, width int, left bool, zero bool) value 
 
 // sprintf returns the formatted string and, if %w occurred, the wrapped error.
 func (in *Interp) sprintf(fr *frame, format value, args []value) (value, *iface) {
+	if ss, ok := format.(*SymStr); ok {
+		if _, conc := ss.concrete(); !conc {
+			return in.sprintfSymFormat(fr, ss, args), nil
+		}
+	}
 	f := strArg(format)
 	var parts []value
 	var wrapped *iface
@@ -354,7 +359,12 @@ func (in *Interp) sprintf(fr *frame, format value, args []value) (value, *iface)
 					piece = fmt.Sprintf(spec, cs)
 				} else {
 					if verb == 'q' {
-						s = concatStr([]value{"\"", s, "\""})
+						// the real strconv.Quote, interpreted from source on the symbolic string
+						pkg := in.Prog.ImportedPackage("strconv")
+						if pkg == nil || pkg.Func("Quote") == nil {
+							panic(unsupported{"%q on a symbolic string (strconv not loaded)"})
+						}
+						s = in.callBody(fr, pkg.Func("Quote"), []value{s})
 					}
 					if hasPrec {
 						panic(unsupported{"precision on symbolic string operand"})
@@ -385,6 +395,32 @@ func (in *Interp) sprintf(fr *frame, format value, args []value) (value, *iface)
 		parts = append(parts, "%!(EXTRA)")
 	}
 	return concatStr(parts), wrapped
+}
+
+// sprintfSymFormat handles a format string with symbolic bytes (code under test
+// passing data as a format): a byte that may be '%' forks; on that branch the
+// output contains fmt's bad-verb marker instead of the input bytes (approximate:
+// such results are only reported after native replay).
+func (in *Interp) sprintfSymFormat(fr *frame, f *SymStr, args []value) value {
+	var out []value
+	for i := 0; i < len(f.E); i++ {
+		e := f.E[i]
+		isPct := in.truth(in.byteEq(e, int64('%')))
+		if !isPct {
+			out = append(out, e)
+			continue
+		}
+		if i+1 < len(f.E) && in.truth(in.byteEq(f.E[i+1], int64('%'))) {
+			out = append(out, int64('%'))
+			i++
+			continue
+		}
+		for _, b := range []byte("%!(NOVERB)") {
+			out = append(out, int64(b))
+		}
+		i++
+	}
+	return normStr(out)
 }
 
 func (in *Interp) formatOther(fr *frame, spec string, verb rune, arg iface) value {
